@@ -15,6 +15,7 @@ import os
 
 _APPLIED: list[str] = []
 _DONE = False
+LOG_COUNTS = {"timeouts": 0, "errors": 0, "timeouts_during_assertion_generation": 0}
 
 
 # ---------------------------------------------------------------------------------------------------------------------
@@ -95,6 +96,19 @@ def _approx_without_tolerance_wrong_value():
         return orig(assertion, *a, **kw)
 
     export.assertion_to_cst = shifted
+
+
+def _filter_execution_times_out():
+    """Not a break of the code but of the environment: every execution of the assertion-filtering subprocess executor times out
+    (what machine load does).  Shows that AssertionGenerator keeps all unverified assertions in that case (fails open)."""
+    import pynguin.testcase.execution as ex
+
+    from pynguin.testcase.execution_result import ExecutionResult
+
+    def execute_multiple(self, test_cases):
+        return [ExecutionResult(timeout=True) for _ in test_cases]
+
+    ex.SubprocessTestCaseExecutor.execute_multiple = execute_multiple
 
 
 # ---------------------------------------------------------------------------------------------------------------------
@@ -276,7 +290,7 @@ def _patched_namespace(module, replacements):
         if src.count(old) != 1:
             raise RuntimeError(f"proposed patch does not apply to {module.__file__}: {old[:60]!r} occurs {src.count(old)} times")
         src = src.replace(old, new)
-    ns = {"__name__": module.__name__ + "__patched", "__file__": module.__file__}
+    ns = {"__name__": module.__name__, "__file__": module.__file__}  # real name: dataclasses looks the module up in sys.modules
     exec(compile(src, module.__file__, "exec"), ns)  # noqa: S102
     return ns
 
@@ -301,6 +315,7 @@ BREAKS = {
     "xfail_on_passing_test": _xfail_on_passing_test,
     "no_exception_wrapping": _no_exception_wrapping,
     "approx_wrong_value": _approx_without_tolerance_wrong_value,
+    "filter_execution_times_out": _filter_execution_times_out,
     "export_drops_last_assertion": _export_drops_last_assertion,
     "minimize_strips_first_assertion": _minimize_strips_first_assertion,
     "clone_drops_assertions": _clone_drops_assertions,
@@ -326,7 +341,32 @@ def apply(events=None):
         _APPLIED.append(name)
     if events is not None and _APPLIED:
         events.append({"ev": "seeded-breaks", "names": list(_APPLIED)})
+    if events is not None:
+        _count_timeout_warnings(events)
     return list(_APPLIED)
+
+
+def _count_timeout_warnings(events):
+    """Pynguin logs a warning whenever a test-case execution (thread or subprocess) timed out; under machine load this makes
+    e.g. the assertion filter fail open.  The count lets a check tell load-induced artefacts from deterministic behaviour."""
+    import logging
+
+    counts = LOG_COUNTS
+
+    class Handler(logging.Handler):
+        def emit(self, record):
+            try:
+                msg = record.getMessage()
+            except Exception:  # noqa: BLE001
+                return
+            if "imeout" in msg:
+                counts["timeouts"] += 1
+            elif record.levelno >= logging.ERROR:
+                counts["errors"] += 1
+
+    handler = Handler(level=logging.WARNING)
+    logging.getLogger("pynguin").addHandler(handler)
+    events.append({"ev": "log-counts", "counts": counts})
 
 
 def install(events, spec):
